@@ -25,11 +25,11 @@ CRATE_FLAG_PAIRS = [(1, 2), (0, 0)]   # chunks: CHUNK_START/CHUNK_END; parents: 
 
 
 def counters(n=0):
-    """{0, 1, 2^32-k, 2^32, 2^33-k, 2^63, 2^64-1-n-k} for k in 0..17 (n = inputs / blocks of the call, so that
+    """{0, 1, 2^31-k, 3*2^31-k, 2^32-k, 2^32, 2^33-k, 2^63, 2^64-1-n-k} for k in 0..17 (n = inputs / blocks of the call, so that
     counter + n never wraps: beyond that the portable code overflows a u64 in debug builds)"""
-    cs = [0, 1, 1 << 32, 1 << 63]
+    cs = [0, 1, 1 << 31, 1 << 32, 1 << 63]
     for k in range(18):
-        cs += [(1 << 32) - k, (1 << 33) - k, M64 - n - k]
+        cs += [(1 << 32) - k, (1 << 33) - k, M64 - n - k, (1 << 31) - k, 3 * (1 << 31) - k]
     return sorted(set(c for c in cs if 0 <= c <= M64 - n))
 
 
@@ -112,6 +112,8 @@ def gen_xof_many(rng, reps):
         for k in range(1, 18):
             for nb in ((2, 3, 4, 5, 7, 8, 9, 12, 15, 16, 17, 24, 31, 33) if reps > 1 else (3, 4, 8, 9, 15, 16, 17, 24, 31)):
                 out.append("%s 64 %d %d %d" % (_cvblk(rng), (1 << 32) - k, rng.below(256), nb))
+                if (k + nb) % 2:       # the signed/unsigned boundary of the low counter word
+                    out.append("%s 64 %d %d %d" % (_cvblk(rng), (1 << 31) - k, rng.below(256), nb))
         for c in counters(35):
             out.append("%s 64 %d %d %d" % (_cvblk(rng), c, rng.below(256), rng.choice([1, 2, 7, 8, 15, 16, 17, 35])))
     out.append("%s 64 0 0 0" % _cvblk(rng))        # zero blocks: nothing written
